@@ -93,9 +93,16 @@ def check(ctx):
     ctx.check(ok, "T1-create", cr, "every setattr in create is under `not hasattr(self._data, k)`",
               "create must never overwrite an existing field")
     st = _stamp_stores(C)
-    gates = [t for t in C.cfg.nodes if t.kind == "test" and isinstance(t.ast.test, ast.Name) and st and all(C.dominated_by_edge([x], t, "T") for x in st)
-             and t.id not in {x.id for x in tests}]
-    fname = gates[0].ast.test.id if gates else None
+    gates = []        # `if flag: stamp` or `if not flag: return` + stamp: the stamping runs only where the flag holds
+    for t in C.cfg.nodes:
+        if t.kind != "test" or t.id in {x.id for x in tests} or not st:
+            continue
+        e, lab = t.ast.test, "T"
+        if isinstance(e, ast.UnaryOp) and isinstance(e.op, ast.Not):
+            e, lab = e.operand, "F"
+        if isinstance(e, ast.Name) and all(C.dominated_by_edge([x], t, lab) for x in st):
+            gates.append((t, e.id))
+    fname = gates[0][1] if gates else None
     fstores = [n for n in C.cfg.nodes if isinstance(n.ast, (ast.Assign, ast.AugAssign)) and any(
         isinstance(x, ast.Name) and isinstance(x.ctx, ast.Store) and x.id == fname for x in C.cfg.walk_node(n))] if fname else []
     loops = [h for h in C.cfg.nodes if h.kind == "for"]
@@ -118,7 +125,12 @@ def check(ctx):
     t = A.ptests(lambda t: isinstance(t, ast.BoolOp) and isinstance(t.op, ast.Or) and
                  {src(v).replace("(", "").replace(")", "") for v in t.values} == {"key in self.__dict__", "REO_IdentPub.matchkey"})
     raises = [n for n in A.cfg.nodes if n.kind == "raise"]
-    ctx.check(bool(t) and A.under(store, t[0]) and any(A.under([r], t[0], holds=False) and "AttributeError" in src(r.ast) for r in raises),
+    compound = bool(t) and A.under(store, t[0]) and any(A.under([r], t[0], holds=False) and "AttributeError" in src(r.ast) for r in raises)
+    # or the two alternatives tested one after the other (if present: store / elif identifier: store / else: raise)
+    P1, P2 = "key in self.__dict__", "REO_IdentPub.match(key)"
+    split = bool(store) and all((P1 in A.facts(n)) or (P2 in A.facts(n)) for n in store) and \
+        any({"key not in self.__dict__", "not REO_IdentPub.match(key)"} <= A.facts(r) and "AttributeError" in src(r.ast) for r in raises)
+    ctx.check(compound or split,
               "T1-ident", sa, "Data.__setattr__: store iff key present or REO_IdentPub.match(key), else AttributeError",
               "field names must be public identifiers")
     gm = ctx.repo.mod("globaling")
